@@ -35,6 +35,10 @@ func TestMain(m *testing.M) {
 		}
 		for i := 0; i < 30; i++ {
 			if msg, _ := run(c); msg != "" {
+				if knownCloseBlocked(msg) {
+					t.Logf("repetition %d: known finding close-blocked-unread-server-message", i+1)
+					continue
+				}
 				t.Fatalf("repetition %d: %s", i+1, msg)
 			}
 		}
@@ -43,6 +47,16 @@ func TestMain(m *testing.M) {
 }
 
 func TestReplay(t *testing.T) { ev.RunReplay(t) }
+
+// closeBlockedSignature marks the recorded known finding (known_findings.txt, key close-blocked-unread-server-message):
+// the plugin is blocked writing an error message (for a signal the client sent late) that nobody reads because the
+// client's read loop stopped when its last run returned; the plugin's read loop then blocks, the client's next write
+// (signal writer or client-done) blocks, and Close waits for it. Only unbuffered transports show it.
+const closeBlockedSignature = "signature: plugin blocked writing an error message nobody reads (handleClosure > sendRuntimeMessage), no client read loop, client blocked writing"
+
+func knownCloseBlocked(msg string) bool {
+	return strings.HasPrefix(msg, "Close did not return") && strings.Contains(msg, closeBlockedSignature) && ev.Known("close-blocked-unread-server-message")
+}
 
 type OutputSpec struct {
 	ID     string     `json:"id"`
@@ -356,7 +370,14 @@ func run(c Case) (string, map[string]int) {
 	select {
 	case <-closed:
 	case <-time.After(30 * time.Second):
-		return "Close did not return on a healthy connection\nsession: " + caseJSON(c), stats
+		buf := make([]byte, 1<<18)
+		dump := string(buf[:runtime.Stack(buf, true)])
+		sig := ""
+		if strings.Contains(dump, "atp.(*atpServerSession).handleClosure") && strings.Contains(dump, "atp.(*atpServerSession).sendRuntimeMessage.func1") &&
+			(strings.Contains(dump, "atp.(*client).executeWriteLoop") || strings.Contains(dump, "atp.(*client).Close")) && !strings.Contains(dump, "atp.(*client).executeReadLoop") {
+			sig = closeBlockedSignature + "\n"
+		}
+		return "Close did not return on a healthy connection\n" + sig + firstLines(dump, 140) + "\nsession: " + caseJSON(c), stats
 	}
 	_ = c2s.Close()
 	go func() { buf := make([]byte, 4096); for { if _, err := s2c.Read(buf); err != nil { return } } }()
@@ -482,7 +503,7 @@ func TestSessions(t *testing.T) {
 	ev.Check(t, "sessions", 300, 5000, func(rt *rapid.T) {
 		c := Case{V1: rapid.IntRange(0, 5).Draw(rt, "v1") == 0}
 		for i := 0; i < rapid.IntRange(1, 3).Draw(rt, "nSteps"); i++ {
-			st := StepSpec{ID: fmt.Sprintf("step%d", i), Input: scopeWithTag(rt, "input")}
+			st := StepSpec{ID: []string{"st", "st1", "st10", "st2"}[i%4], Input: scopeWithTag(rt, "input")}
 			for j := 0; j < rapid.IntRange(1, 3).Draw(rt, "nOutputs"); j++ {
 				osc := scopeWithTag(rt, "output")
 				mv, ok := gen.ValueFor(rt, osc, nil, 2)
@@ -501,7 +522,7 @@ func TestSessions(t *testing.T) {
 		nonString, reused := false, false
 		for i := 0; i < nCalls; i++ {
 			st := rapid.SampledFrom(c.Steps).Draw(rt, "callStep")
-			cl := Call{Run: fmt.Sprintf("run-%d", i), Step: st.ID}
+			cl := Call{Run: []string{"r", "r1", "r10", "r11", "r2", "r20", "r3", "r30"}[i%8], Step: st.ID} // IDs that are prefixes of each other
 			switch shape {
 			case "serial":
 				cl.Group = i
@@ -571,6 +592,10 @@ func TestSessions(t *testing.T) {
 			ev.Sample("session", map[string]any{"calls": len(c.Calls), "shape": shape, "c2s": c.C2S, "s2c": c.S2C, "v1": c.V1, "steps": len(c.Steps)})
 		}
 		if msg != "" {
+			if knownCloseBlocked(msg) {
+				ev.Class("known_close_blocked_unread_server_message", 1)
+				return
+			}
 			ev.Fail(rt, "session", c, "%s", msg)
 		}
 	})
